@@ -18,6 +18,8 @@ def labels_of(run: Run) -> list[str]:
     out.append("maximize" if sc["maximize"] else "minimize")
     out.append("hibernation" if sc["options"].get("hibernation") else "no-hibernation")
     out.append("objective=" + sc["objective"]["family"])
+    if sc.get("use_cache"):
+        out.append("function_problem_caches")
     if run.tree is not None:
         t = run.tree
         out.append("height_reached=%d" % sum(1 for l in t.levels if l))
